@@ -96,6 +96,7 @@ type Profile struct {
 	Collide   bool // add descriptors whose split names (path joined by "_") coincide
 	Clash     bool // add a message whose exposed oneof and a field get the same JSON property name
 	FlatCycle int  // >0: add a crafted cycle of that many messages each flattening the next (negative: with a chain leading into it)
+	FlatDeep  int  // >0: add a crafted chain of that many nested flatten levels, several properties of differing kinds at every level
 	OddPkg    bool // some package names APIFromImage cannot file: no version part, two version parts, two parts after the version
 }
 
@@ -204,6 +205,10 @@ func Generate(r *vh.Rand, p Profile, deps []*descriptorpb.FileDescriptorProto) *
 	}
 	if p.Supported {
 		repairSupported(c.Gen)
+	}
+	if p.FlatDeep > 0 {
+		addFlattenChain(c.Gen[0], p.FlatDeep)
+		g.tag(fmt.Sprintf("flatten-chain-crafted-%d", p.FlatDeep))
 	}
 	if p.FlatCycle != 0 {
 		n, lead := p.FlatCycle, false
@@ -1763,6 +1768,47 @@ func addFlattenCycle(fd *descriptorpb.FileDescriptorProto, n int, lead bool) {
 			Name:  proto.String("CycLead"),
 			Field: []*descriptorpb.FieldDescriptorProto{flat("Cyc0")},
 		})
+	}
+}
+
+// addFlattenChain appends DeepTop -> Deep1 -> ... -> Deep<n>: every level reaches the next through a
+// flattened object field (number 7) and has properties of differing kinds before and after it, the
+// innermost has four. The client properties of DeepTop are then proto paths of every length up to
+// n+1 with several siblings at each depth (paths built by appending to a shared parent path).
+func addFlattenChain(fd *descriptorpb.FileDescriptorProto, n int) {
+	opt := descriptorpb.FieldDescriptorProto_LABEL_OPTIONAL.Enum()
+	scalar := func(name string, num int32, t descriptorpb.FieldDescriptorProto_Type) *descriptorpb.FieldDescriptorProto {
+		return &descriptorpb.FieldDescriptorProto{Name: proto.String(name), Number: proto.Int32(num), Label: opt, Type: t.Enum()}
+	}
+	flat := func(target string, msgStyle bool) *descriptorpb.FieldDescriptorProto {
+		fo := &descriptorpb.FieldOptions{}
+		if msgStyle {
+			proto.SetExtension(fo, ext_j5pb.E_Field, &ext_j5pb.FieldOptions{Type: &ext_j5pb.FieldOptions_Message{Message: &ext_j5pb.MessageFieldOptions{Flatten: true}}})
+		} else {
+			proto.SetExtension(fo, ext_j5pb.E_Field, &ext_j5pb.FieldOptions{Type: &ext_j5pb.FieldOptions_Object{Object: &ext_j5pb.ObjectField{Flatten: true}}})
+		}
+		return &descriptorpb.FieldDescriptorProto{Name: proto.String("inner"), Number: proto.Int32(7), Label: opt,
+			Type: descriptorpb.FieldDescriptorProto_TYPE_MESSAGE.Enum(), TypeName: proto.String("." + fd.GetPackage() + "." + target), Options: fo}
+	}
+	name := func(i int) string {
+		if i == 0 {
+			return "DeepTop"
+		}
+		return fmt.Sprintf("Deep%d", i)
+	}
+	for i := 0; i <= n; i++ {
+		m := &descriptorpb.DescriptorProto{Name: proto.String(name(i))}
+		m.Field = append(m.Field, scalar(fmt.Sprintf("s%d", i), 1, descriptorpb.FieldDescriptorProto_TYPE_STRING))
+		if i < n {
+			m.Field = append(m.Field, flat(name(i+1), i%2 == 0))
+			m.Field = append(m.Field, scalar(fmt.Sprintf("n%d", i), 9, descriptorpb.FieldDescriptorProto_TYPE_INT64))
+		} else {
+			m.Field = append(m.Field,
+				scalar(fmt.Sprintf("b%d", i), 2, descriptorpb.FieldDescriptorProto_TYPE_BOOL),
+				scalar(fmt.Sprintf("n%d", i), 3, descriptorpb.FieldDescriptorProto_TYPE_INT32),
+				scalar(fmt.Sprintf("t%d", i), 4, descriptorpb.FieldDescriptorProto_TYPE_STRING))
+		}
+		fd.MessageType = append(fd.MessageType, m)
 	}
 }
 
